@@ -112,6 +112,94 @@ example : pyEq (mkTup [.int 1, .int 2]) (mkLst [.int 1, .int 2]) = false ∧
     pyEq (mkTup [.int 1]) (mkTup [.int 1, .int 1]) = false ∧
     pyEq (.int 1) (.str "1") = false ∧ pyEq (.int 0) .none = false := by decide
 
+/-! ## `sameType`: the top-level Python type -/
+
+@[simp] theorem sameType_refl (v : Val) : sameType v v = true := by cases v <;> rfl
+
+theorem sameType_symm (a b : Val) : sameType a b = sameType b a := by cases a <;> cases b <;> rfl
+
+/-- the relation is transitive (it is "equal type tag") -/
+theorem sameType_trans {a b c : Val} (h1 : sameType a b = true) (h2 : sameType b c = true) :
+    sameType a c = true := by
+  cases a <;> cases b <;> cases c <;> simp_all [sameType]
+
+@[simp] theorem sameType_int_int (i j : Int) : sameType (.int i) (.int j) = true := rfl
+@[simp] theorem sameType_bool_bool (a b : Bool) : sameType (.bool a) (.bool b) = true := rfl
+@[simp] theorem sameType_str_str (s t : String) : sameType (.str s) (.str t) = true := rfl
+@[simp] theorem sameType_tup_tup (a b : Val) : sameType (.tup a) (.tup b) = true := rfl
+@[simp] theorem sameType_lst_lst (a b : Val) : sameType (.lst a) (.lst b) = true := rfl
+/-- `type(1) is not type(True)`: the one place where `sameType` separates what `pyEq` identifies -/
+@[simp] theorem sameType_int_bool (i : Int) (b : Bool) : sameType (.int i) (.bool b) = false := rfl
+@[simp] theorem sameType_bool_int (b : Bool) (i : Int) : sameType (.bool b) (.int i) = false := rfl
+@[simp] theorem sameType_tup_lst (a b : Val) : sameType (.tup a) (.lst b) = false := rfl
+@[simp] theorem sameType_lst_tup (a b : Val) : sameType (.lst a) (.tup b) = false := rfl
+theorem sameType_mkTup (xs ys : List Val) : sameType (mkTup xs) (mkTup ys) = true := rfl
+theorem sameType_mkLst (xs ys : List Val) : sameType (mkLst xs) (mkLst ys) = true := rfl
+
+/-- the sentinel has its own type -/
+theorem sameType_sentinel_left (v : Val) : sameType .sentinel v = decide (v = .sentinel) := by
+  cases v <;> rfl
+theorem sameType_sentinel_right (v : Val) : sameType v .sentinel = decide (v = .sentinel) := by
+  cases v <;> rfl
+
+/-- structurally equal values have the same type -/
+theorem sameType_of_eq {a b : Val} (h : a = b) : sameType a b = true := h ▸ sameType_refl a
+
+/-- values of different types are structurally different -/
+theorem ne_of_sameType_false {a b : Val} (h : sameType a b = false) : a ≠ b := by
+  intro e; rw [sameType_of_eq e] at h; cases h
+
+/-- Python-equal values of different types are exactly `True`/`1` and `False`/`0` (either way
+round): the only pairs on which the repaired `bumps` and the pre-repair `bumpsPyEq` disagree -/
+theorem pyEq_of_other_type {a b : Val} (he : pyEq a b = true) (ht : sameType a b = false) :
+    (∃ x : Bool, a = .bool x ∧ b = .int (if x then 1 else 0)) ∨
+    (∃ x : Bool, a = .int (if x then 1 else 0) ∧ b = .bool x) := by
+  cases a with
+  | bool x =>
+    cases b with
+    | int j =>
+      have h : (if x then (1 : Int) else 0) = j := by simpa using he
+      exact .inl ⟨x, rfl, by rw [h]⟩
+    | _ => simp_all [pyEq, sameType]
+  | int i =>
+    cases b with
+    | bool x =>
+      have h : i = (if x then (1 : Int) else 0) := by simpa using he
+      exact .inr ⟨x, by rw [h], rfl⟩
+    | _ => simp_all [pyEq, sameType]
+  | _ => cases b <;> simp_all [pyEq, sameType]
+
+/-- `[1]` and `[True]`: same type, Python-equal, structurally different -/
+example : sameType (mkLst [.int 1]) (mkLst [.bool true]) = true ∧
+    pyEq (mkLst [.int 1]) (mkLst [.bool true]) = true ∧ mkLst [.int 1] ≠ mkLst [.bool true] := by decide
+/-- `(1,)` and `[1]`: different types (and already unequal) -/
+example : sameType (mkTup [.int 1]) (mkLst [.int 1]) = false ∧
+    pyEq (mkTup [.int 1]) (mkLst [.int 1]) = false := by decide
+
+/-! ## `changed`: what `update_value` calls a change -/
+
+theorem changed_eq (a b : Val) : changed a b = (!(sameType a b) || !(pyEq a b)) := rfl
+
+/-- another type is a change, equal or not -/
+theorem changed_of_other_type {a b : Val} (h : sameType a b = false) : changed a b = true := by
+  simp [changed, h]
+/-- a value Python tells apart is a change -/
+theorem changed_of_pyEq_false {a b : Val} (h : pyEq a b = false) : changed a b = true := by
+  simp [changed, h]
+theorem changed_eq_false_iff {a b : Val} : changed a b = false ↔ sameType a b = true ∧ pyEq a b = true := by
+  simp [changed]
+@[simp] theorem changed_self (v : Val) : changed v v = false := by simp [changed]
+/-- within one type, `changed` is Python's `!=` -/
+theorem changed_of_sameType {a b : Val} (h : sameType a b = true) : changed a b = !(pyEq a b) := by
+  simp [changed, h]
+@[simp] theorem changed_int_int (i j : Int) : changed (.int i) (.int j) = (i != j) := by
+  simp [changed, bne]
+/-- a change is a structural change -/
+theorem ne_of_changed {a b : Val} (h : changed a b = true) : a ≠ b := by
+  intro e; subst e; simp at h
+theorem changed_symm (a b : Val) : changed a b = changed b a := by
+  simp [changed, sameType_symm a b, pyEq_symm a b]
+
 end Val
 
 /-! ## `bumps` -/
@@ -122,13 +210,46 @@ theorem bumps_of_new {s : GState} {n : Name} (v : Val) (h : AL.get? s.values n =
   unfold bumps; rw [h]
 
 theorem bumps_of_some {s : GState} {n : Name} {old : Val} (v : Val) (h : AL.get? s.values n = some old) :
-    s.bumps n v = (v == .sentinel || !(Val.pyEq old v)) := by
+    s.bumps n v = (v == .sentinel || !(Val.sameType old v) || !(Val.pyEq old v)) := by
+  unfold bumps; rw [h]; simp only [Val.changed, Bool.or_assoc]
+
+theorem bumps_of_some_changed {s : GState} {n : Name} {old : Val} (v : Val)
+    (h : AL.get? s.values n = some old) : s.bumps n v = (v == .sentinel || Val.changed old v) := by
   unfold bumps; rw [h]
 
-/-- rewriting a Python-equal value (not the sentinel) does not advance the version -/
+/-- a changed value advances the version -/
+theorem bumps_of_changed {s : GState} {n : Name} {old v : Val} (h : AL.get? s.values n = some old)
+    (hc : Val.changed old v = true) : s.bumps n v = true := by
+  rw [bumps_of_some_changed v h, hc, Bool.or_true]
+
+theorem bumpsPyEq_of_new {s : GState} {n : Name} (v : Val) (h : AL.get? s.values n = .none) :
+    s.bumpsPyEq n v = true := by
+  unfold bumpsPyEq; rw [h]
+
+theorem bumpsPyEq_of_some {s : GState} {n : Name} {old : Val} (v : Val)
+    (h : AL.get? s.values n = some old) :
+    s.bumpsPyEq n v = (v == .sentinel || !(Val.pyEq old v)) := by
+  unfold bumpsPyEq; rw [h]
+
+/-- rewriting a Python-equal value OF THE SAME TYPE (not the sentinel) does not advance the version -/
 theorem bumps_eq_false_of_pyEq {s : GState} {n : Name} {old v : Val} (h : AL.get? s.values n = some old)
-    (hv : v ≠ .sentinel) (he : Val.pyEq old v = true) : s.bumps n v = false := by
-  rw [bumps_of_some v h, he]
+    (hv : v ≠ .sentinel) (ht : Val.sameType old v = true) (he : Val.pyEq old v = true) :
+    s.bumps n v = false := by
+  rw [bumps_of_some v h, he, ht]
+  cases hs : v == Val.sentinel with
+  | true => exact absurd (by simpa using hs) hv
+  | false => rfl
+
+/-- in particular rewriting the very same value does not -/
+theorem bumps_eq_false_of_same {s : GState} {n : Name} {v : Val} (h : AL.get? s.values n = some v)
+    (hv : v ≠ .sentinel) : s.bumps n v = false :=
+  bumps_eq_false_of_pyEq h hv (Val.sameType_refl v) (Val.pyEq_refl v)
+
+/-- pre-repair: a Python-equal value of ANY type did not advance the version -/
+theorem bumpsPyEq_eq_false_of_pyEq {s : GState} {n : Name} {old v : Val}
+    (h : AL.get? s.values n = some old) (hv : v ≠ .sentinel) (he : Val.pyEq old v = true) :
+    s.bumpsPyEq n v = false := by
+  rw [bumpsPyEq_of_some v h, he]
   cases hs : v == Val.sentinel with
   | true => exact absurd (by simpa using hs) hv
   | false => rfl
@@ -138,21 +259,104 @@ theorem bumps_of_pyEq_false {s : GState} {n : Name} {old v : Val} (h : AL.get? s
     (he : Val.pyEq old v = false) : s.bumps n v = true := by
   rw [bumps_of_some v h, he]; simp
 
+/-- a value of another type advances the version, equal or not (the repair of C01-F2) -/
+theorem bumps_of_other_type {s : GState} {n : Name} {old v : Val} (h : AL.get? s.values n = some old)
+    (ht : Val.sameType old v = false) : s.bumps n v = true := by
+  rw [bumps_of_some v h, ht]; simp
+
+/-- exactly: no bump iff the name is there, the value is not the sentinel, has the old value's type
+and is Python-equal to it -/
+theorem bumps_eq_false_iff {s : GState} {n : Name} {v : Val} :
+    s.bumps n v = false ↔
+      ∃ old, AL.get? s.values n = some old ∧ v ≠ .sentinel ∧ Val.sameType old v = true ∧
+        Val.pyEq old v = true := by
+  cases hg : AL.get? s.values n with
+  | none => simp [bumps_of_new v hg]
+  | some old => simp [bumps_of_some v hg, Bool.or_eq_false_iff, and_assoc]
+
+/-- the repair only ever bumps more: whatever advanced the version before still does -/
+theorem bumps_of_bumpsPyEq {s : GState} {n : Name} {v : Val} (h : s.bumpsPyEq n v = true) :
+    s.bumps n v = true := by
+  cases hg : AL.get? s.values n with
+  | none => exact bumps_of_new v hg
+  | some old =>
+    rw [bumpsPyEq_of_some v hg] at h
+    rw [bumps_of_some v hg]
+    simp only [Bool.or_eq_true, Bool.not_eq_true'] at h ⊢
+    rcases h with h | h
+    · exact .inl (.inl h)
+    · exact .inr h
+
+/-- …and the two differ only on a Python-equal value of another type -/
+theorem bumps_eq_bumpsPyEq_of_sameType {s : GState} {n : Name} {old v : Val}
+    (h : AL.get? s.values n = some old) (ht : Val.sameType old v = true) :
+    s.bumps n v = s.bumpsPyEq n v := by
+  rw [bumps_of_some v h, bumpsPyEq_of_some v h, ht]; simp
+
 /-- the actual test is never stricter than the idealised structural one -/
 theorem bumpsStructural_of_bumps {s : GState} {n : Name} {v : Val} (h : s.bumps n v = true) :
     s.bumpsStructural n v = true := by
-  unfold bumps at h; unfold bumpsStructural
+  unfold bumpsStructural
   cases hg : AL.get? s.values n with
   | none => rfl
   | some old =>
-    rw [hg] at h
+    rw [bumps_of_some v hg] at h
     simp only [Bool.or_eq_true, Bool.not_eq_true', bne_iff_ne, ne_eq] at h ⊢
-    exact h.imp id Val.ne_of_pyEq_false
+    rcases h with (h | h) | h
+    · exact .inl h
+    · exact .inr (Val.ne_of_sameType_false h)
+    · exact .inr (Val.ne_of_pyEq_false h)
 
-/-- …and is strictly weaker: replacing `1` by `True` is a structural change but no bump -/
+theorem bumpsStructural_of_bumpsPyEq {s : GState} {n : Name} {v : Val} (h : s.bumpsPyEq n v = true) :
+    s.bumpsStructural n v = true := bumpsStructural_of_bumps (bumps_of_bumpsPyEq h)
+
+/-- …and is still strictly weaker: replacing `[1]` by `[True]` (same type, Python-equal) is a
+structural change but no bump -/
 theorem bumps_ne_bumpsStructural :
-    ({ values := [("a", .int 1)] } : GState).bumps "a" (.bool true) = false ∧
+    ({ values := [("a", Val.mkLst [.int 1])] } : GState).bumps "a" (Val.mkLst [.bool true]) = false ∧
+    ({ values := [("a", Val.mkLst [.int 1])] } : GState).bumpsStructural "a" (Val.mkLst [.bool true]) = true := by
+  decide
+
+/-- the repair (C01-F2): replacing `1` by `True` advances the version; before, it did not -/
+theorem bumps_int_bool :
+    ({ values := [("a", .int 1)] } : GState).bumps "a" (.bool true) = true ∧
+    ({ values := [("a", .int 1)] } : GState).bumpsPyEq "a" (.bool true) = false := by decide
+
+/-- pre-repair negative witness: `bumpsPyEq` was strictly weaker than the structural test on `1` / `True` -/
+theorem bumpsPyEq_ne_bumpsStructural :
+    ({ values := [("a", .int 1)] } : GState).bumpsPyEq "a" (.bool true) = false ∧
     ({ values := [("a", .int 1)] } : GState).bumpsStructural "a" (.bool true) = true := by decide
+
+/-- the type test looks at the top level only: `(1,)` → `[1]` bumps (and always did), `[1]` → `[True]`,
+`(1, [True])` → `(True, [1])` do not; `True` → `1`, `0` → `False` do -/
+theorem bumps_examples :
+    ({ values := [("a", Val.mkTup [.int 1])] } : GState).bumps "a" (Val.mkLst [.int 1]) = true ∧
+    ({ values := [("a", Val.mkTup [.int 1])] } : GState).bumpsPyEq "a" (Val.mkLst [.int 1]) = true ∧
+    ({ values := [("a", Val.mkLst [.int 1])] } : GState).bumps "a" (Val.mkLst [.bool true]) = false ∧
+    ({ values := [("a", Val.mkTup [.int 1, Val.mkLst [.bool true]])] } : GState).bumps "a"
+      (Val.mkTup [.bool true, Val.mkLst [.int 1]]) = false ∧
+    ({ values := [("a", .bool true)] } : GState).bumps "a" (.int 1) = true ∧
+    ({ values := [("a", .int 0)] } : GState).bumps "a" (.bool false) = true ∧
+    ({ values := [("a", .int 1)] } : GState).bumps "a" (.int 1) = false ∧
+    ({ values := [("a", .str "a")] } : GState).bumps "a" (.str "a") = false ∧
+    ({ values := [("a", .int 1)] } : GState).bumps "a" (.int 2) = true := by decide
+
+/-- the pre-repair test on the hand cases checked against the real (pre-repair) `update_value`:
+`1 → True`, `True → 1`, `0 → False`, `"a" → "a"`, `[1] → [True]`, `(1, [True]) → (True, [1])`, `None → None` no bump;
+`1 → 2`, `(1,) → [1]`, `None → 0` bump -/
+theorem bumpsPyEq_examples :
+    ({ values := [("a", .int 1)] } : GState).bumpsPyEq "a" (.bool true) = false ∧
+    ({ values := [("a", .bool true)] } : GState).bumpsPyEq "a" (.int 1) = false ∧
+    ({ values := [("a", .int 0)] } : GState).bumpsPyEq "a" (.bool false) = false ∧
+    ({ values := [("a", .str "a")] } : GState).bumpsPyEq "a" (.str "a") = false ∧
+    ({ values := [("a", Val.mkLst [.int 1])] } : GState).bumpsPyEq "a" (Val.mkLst [.bool true]) = false ∧
+    ({ values := [("a", Val.mkTup [.int 1, Val.mkLst [.bool true]])] } : GState).bumpsPyEq "a"
+      (Val.mkTup [.bool true, Val.mkLst [.int 1]]) = false ∧
+    ({ values := [("a", .none)] } : GState).bumpsPyEq "a" .none = false ∧
+    ({ values := [("a", .int 1)] } : GState).bumpsPyEq "a" (.int 2) = true ∧
+    ({ values := [("a", Val.mkTup [.int 1])] } : GState).bumpsPyEq "a" (Val.mkLst [.int 1]) = true ∧
+    ({ values := [("a", .none)] } : GState).bumpsPyEq "a" (.int 0) = true ∧
+    ({} : GState).bumpsPyEq "a" (.int 1) = true := by decide
 
 end GState
 end HG
